@@ -54,7 +54,8 @@ PROPERTIES = {
                 "and container type, every unconditional occurrence must be retrieved on every event, and every miniAOD token must "
                 "have been created once in the constructor by consumes<T>(InputTag(bank)) for an occurrence; (b) for sampled events "
                 "every retrieval index is failed in turn: the delivery must end in failure before any row is filled, without a "
-                "signal (rows already written for earlier objects of a several-rows-per-event query must be a prefix of "
+                "signal (on the CMS backends, where only the use of an invalid handle is an error, a delivery that completes "
+                "must have written exactly the rows it writes when the store works; rows already written for earlier objects of a several-rows-per-event query must be a prefix of "
                 "the event's rows), and a fresh instance must then reproduce outcome(k). Non-trivial = a job with at least one enumerated "
                 "failing retrieval; distinct = (shape, backend, retrieval position).",
         "real_vs_stub": REAL_VS_STUB,
@@ -424,6 +425,13 @@ def _c06(case, exe, work, res):
                 bump("fault_not_reached")
                 continue
             f0 = fd[0]
+            if f0["status"] == "OK" and case["backend"] != "atlas" and outcome[k][0] == "rows" and f0["rows"] == outcome[k][1]:
+                # CMS: a failed fetch leaves an invalid handle, and only *using* it is an error. The generated job may fetch a
+                # collection again whose value it then does not need (e.g. once per element of a loop while only the
+                # first element's value is used): the event comes out exactly as it does when the store works, nothing
+                # wrong was read. Anything else - other rows, missing rows - is still the violation.
+                bump("reach:cms_failed_fetch_whose_result_is_not_used")
+                continue
             if f0["status"] == "OK":
                 viols.append({"property": "C06", "invariant": "failed-retrieval-not-contained", "event": k, "index": idx,
                               "detail": f"event {k}, retrieval #{idx} ({what}) failed by the store but the event was processed as if "
